@@ -550,6 +550,24 @@ private:
         return m_stack.back();
     }
 
+#if defined(XALAN_C_VERIF_HOOKS)
+public:
+    // verification hook (add-only): sizes of the internal stacks, for the C06 check
+    template<class VectorType>
+    void
+    verifSizes(VectorType&  v) const
+    {
+        typedef typename VectorType::value_type     value_type;
+        v.push_back(value_type("VS.m_stack", long(m_stack.size())));
+        v.push_back(value_type("VS.m_guardStack", long(m_guardStack.size())));
+        v.push_back(value_type("VS.m_elementFrameStack", long(m_elementFrameStack.size())));
+        v.push_back(value_type("VS.m_currentStackFrameIndex", long(m_currentStackFrameIndex)));
+        v.push_back(value_type("VS.m_globalStackFrameIndex", m_globalStackFrameIndex == size_type(~0u) ? -1L : long(m_globalStackFrameIndex)));
+        v.push_back(value_type("VS.m_globalStackFrameMarked", m_globalStackFrameMarked ? 1L : 0L));
+    }
+private:
+#endif
+
     friend class CommitPushElementFrame;
     friend class EnsurePop;
     friend class PushParamFunctor;
